@@ -191,7 +191,7 @@ def modified_between(cfg, guard_block, sink_block, keys, sink_index=None, prog=N
     for b in region:
         blk = cfg.blocks[b]
         stmts = cfg.f.block_exprs(blk)
-        if b == sink_block and sink_index is not None and sink_block not in cfg.reachable_from(sink_block):
+        if b == sink_block and sink_index is not None and sink_block not in cfg.reachable_from(sink_block, avoid=(guard_block,)):
             stmts = stmts[:sink_index]
         for s in stmts:
             const_args = set()
